@@ -3,7 +3,7 @@ flags and the way instruction-selection patterns use the operands; sibling
 flag vectors; (call skeleton shared with C05)."""
 import ast
 
-from ..core import norm
+from ..core import norm, walk_no_nested
 from .. import isa as isamod
 
 ARCHS_QUICK = ["arm", "arm:thumb", "riscv", "riscv:rvc", "x86_64", "m68k", "mips"]
@@ -214,6 +214,7 @@ def run(ctx):
     ctx.extra["x86_rmw_sites"] = x86_destination_not_an_input(ctx, dump, "C07.R5")
     ctx.rule("C07.R3", "an undeclared (implicit) fixed-register operand is loaded immediately before the instruction that reads it", floor=20)
     ctx.extra["implicit_operand_sites"] = implicit_operand_windows(ctx, dump, "x86_64", "C07.R3")
+    register_api(ctx, "C07.R7")
     # R2: flag sanity + sibling vectors
     for arch in archs:
         a = dump["archs"][arch]
@@ -351,3 +352,86 @@ def pseudo_expansions(ctx, dump, arch, rid):
                     ctx.ob(rid, "%s:%s.render" % (rel, cls.name), "`%s` is declared write-only on %s: the expansion reads it (%s) only after an earlier yielded instruction wrote it, on every path" % (o, cls.name, " ".join(norm(st.value.value).split())[:50]),
                            ok, construct="expansion-reads-after-write:%s.%s" % (cls.name, o), node=st)
     return n
+
+
+ENC = "ppci/arch/encoding.py"
+
+
+def register_api(ctx, rid):
+    """The interface between an instruction's declaration and the liveness analysis: which registers an instruction
+    instance reads and writes is computed from the operand flags by Instruction.used_registers / defined_registers,
+    over Constructor.leaves (which expands composite operands)."""
+    from ..core import last_name
+    ctx.rule(rid, "Instruction.used_registers / defined_registers report exactly the operands declared read / written (composite operands expanded) plus extra_uses / extra_defs; replace_register rewrites every matching operand", floor=10)
+    op = ctx.fn(ENC, "Operand.__init__")
+    site = ENC + ":Operand.__init__"
+    params = [a.arg for a in op.args.args]
+    dflt = dict(zip(reversed(params), reversed([norm(d) for d in op.args.defaults])))
+    st = {norm(n.targets[0]): norm(n.value) for n in walk_no_nested(op) if isinstance(n, ast.Assign) and len(n.targets) == 1}
+    ctx.ob(rid, site, "the read flag is stored in _read and the write flag in _write (not crossed), both default to False", st.get("self._read") == "read" and st.get("self._write") == "write" and dflt.get("read") == "False" and dflt.get("write") == "False",
+           construct="flags-stored", detail="_read=%s _write=%s" % (st.get("self._read"), st.get("self._write")))
+    for meth, flag, extra in (("used_registers", "_read", "extra_uses"), ("defined_registers", "_write", "extra_defs")):
+        f = ctx.fn(ENC, "Instruction." + meth)
+        site = "%s:Instruction.%s" % (ENC, meth)
+        loops = [l for l in walk_no_nested(f) if isinstance(l, ast.For) and norm(l.iter) == "self.leaves" and isinstance(l.target, ast.Tuple) and len(l.target.elts) == 2]
+        ok = len(loops) == 1
+        coll = None
+        if ok:
+            p, o = (norm(e) for e in loops[0].target.elts)
+            apps = [c for c in ast.walk(loops[0]) if isinstance(c, ast.Call) and last_name(c) in ("append", "add") and isinstance(c.func, ast.Attribute)]
+            ok = len(apps) == 1 and norm(apps[0].args[0]) == "%s.__get__(%s)" % (p, o)
+            if ok:
+                coll = norm(apps[0].func.value)
+                from ..flow import controlling
+                conds = [(" ".join(norm(t).split()), pol) for t, pol, _ in controlling(apps[0], f)]
+                ok = conds == [("%s.%s" % (p, flag), True)] and not any(isinstance(x, (ast.Break, ast.Continue, ast.Return)) for x in ast.walk(loops[0]))
+        ctx.ob(rid, site, "collects the value of every leaf operand whose %s flag is set - that flag is the only condition, and no leaf ends the loop early" % flag, ok, construct="collect:" + meth)
+        ext = [c for c in walk_no_nested(f) if isinstance(c, ast.Call) and last_name(c) in ("extend", "update") and coll and norm(c.func.value) == coll and norm(c.args[0]) == "self." + extra]
+        rets = [r for r in walk_no_nested(f) if isinstance(r, ast.Return)]
+        ok = bool(coll) and len(ext) == 1 and len(rets) == 1 and norm(rets[0].value) == coll
+        ctx.ob(rid, site, "adds self.%s (implicit registers of calls and the like) and returns the collection" % extra, ok, construct="extra:" + meth)
+    lv = ctx.fn(ENC, "Constructor.leaves")
+    site = ENC + ":Constructor.leaves"
+    loops = [l for l in walk_no_nested(lv) if isinstance(l, ast.For) and norm(l.iter) == "self.properties"]
+    ok = len(loops) == 1 and len(loops[0].body) == 1 and isinstance(loops[0].body[0], ast.If)
+    if ok:
+        v = norm(loops[0].target)
+        br = loops[0].body[0]
+        ok = " ".join(norm(br.test).split()) == v + ".is_constructor"
+        yf = [n for n in ast.walk(ast.Module(body=br.body, type_ignores=[])) if isinstance(n, ast.YieldFrom)]
+        yl = [n for n in ast.walk(ast.Module(body=br.orelse, type_ignores=[])) if isinstance(n, ast.Yield)]
+        ok = ok and len(yf) == 1 and norm(yf[0].value) == "%s.__get__(self).leaves" % v and len(yl) == 1 and isinstance(yl[0].value, ast.Tuple) and [norm(e) for e in yl[0].value.elts] == [v, "self"]
+        ok = ok and not any(isinstance(x, (ast.Break, ast.Continue, ast.Return)) for x in ast.walk(loops[0]))
+    ctx.ob(rid, site, "every property is a leaf of the object it is declared on; a composite (constructor) operand contributes the leaves of its current value instead", ok, construct="leaves")
+    pr = ctx.fn(ENC, "Constructor.properties")
+    rets = [norm(r.value) for r in walk_no_nested(pr) if isinstance(r, ast.Return) and r.value is not None]
+    ctx.ob(rid, ENC + ":Constructor.properties", "the properties are the formal arguments of the syntax (all of them)", "self.syntax.formal_arguments" in rets and all(r in ("self.syntax.formal_arguments", "[]") for r in rets), construct="properties", detail=str(rets))
+    rr = ctx.fn(ENC, "Instruction.replace_register")
+    site = ENC + ":Instruction.replace_register"
+    ok = len(rr.args.args) == 3
+    if ok:
+        old, new = rr.args.args[1].arg, rr.args.args[2].arg
+        loops = [l for l in walk_no_nested(rr) if isinstance(l, ast.For) and norm(l.iter) == "self.leaves" and isinstance(l.target, ast.Tuple)]
+        ok = len(loops) == 1
+        if ok:
+            p, o = (norm(e) for e in loops[0].target.elts)
+            sets = [c for c in ast.walk(loops[0]) if isinstance(c, ast.Call) and norm(c.func) == p + ".__set__"]
+            ok = len(sets) == 1 and [norm(a) for a in sets[0].args] == [o, new]
+            if ok:
+                from ..flow import controlling
+                conds = {(" ".join(norm(t).split()), pol) for t, pol, _ in controlling(sets[0], rr)}
+                ok = ("%s.__get__(%s) is %s" % (p, o, old), True) in conds and all(c in ("%s.__get__(%s) is %s" % (p, o, old), "issubclass(%s._cls, Register)" % p) and pol is True for c, pol in conds)
+                ok = ok and not any(isinstance(x, (ast.Break, ast.Continue, ast.Return)) for x in ast.walk(loops[0]))
+    ctx.ob(rid, site, "every leaf operand that IS the old register is set to the new one (no early exit: an instruction may name a register twice, e.g. add r, r)", ok, construct="replace-all")
+    rg = ctx.fn(ENC, "Instruction.registers")
+    ys = [n for n in ast.walk(rg) if isinstance(n, ast.Yield)]
+    ok = len(ys) == 1 and not any(isinstance(x, (ast.Break, ast.Continue, ast.Return)) for x in ast.walk(rg))
+    ctx.ob(rid, ENC + ":Instruction.registers", "yields the value of every register-typed leaf", ok and "__get__" in norm(ys[0].value), construct="registers")
+    for meth, attr in (("reads_register", "used_registers"), ("writes_register", "defined_registers")):
+        f = ctx.fn(ENC, "Instruction." + meth)
+        a = f.args.args[1].arg
+        rets = [" ".join(norm(r.value).split()) for r in walk_no_nested(f) if isinstance(r, ast.Return)]
+        ctx.ob(rid, "%s:Instruction.%s" % (ENC, meth), "membership test in %s" % attr, rets == ["%s in self.%s" % (a, attr)], construct=meth, detail=str(rets))
+    ini = ctx.fn(ENC, "Instruction.__init__")
+    st = {norm(n.targets[0]): norm(n.value) for n in walk_no_nested(ini) if isinstance(n, ast.Assign) and len(n.targets) == 1}
+    ctx.ob(rid, ENC + ":Instruction.__init__", "clobbers, extra_uses and extra_defs are per-instance lists that start empty", all(st.get("self." + k) == "[]" for k in ("clobbers", "extra_uses", "extra_defs")), construct="fresh-lists")
